@@ -153,3 +153,98 @@ def _(ctx):
     m = it.new_object('MSSMNoFV_onshell')
     for k, (sym, r, exc) in enumerate(it.run_paths(lambda: it.call('calculate_uncertainty_amu_2loop', [m], file='src/MSSMNoFV/gm2_uncertainty.cpp'))):
         ctx.prove('path%d' % k, sym.pc, z3.ToReal(0) + r >= z3.Q(23, 10**11) if False else (r >= z3.Q(23, 10**11)), check_vacuity=False)
+
+# ------------------------------------------------------------------------------------------------
+# Non-interference (read frame): the a_mu functions depend on the CURRENT spectrum only.  The `physical' struct also holds pole-mass copies of
+# the SUSY masses and mixings (targets of convert_to_onshell; calculate_masses() refreshes them only when they are still zero), so a function that read
+# one of them would see a stale value when an object is rescaled and re-evaluated -- and would not scale as the property demands.
+# Allowed reads of `physical': the SM pole masses and MA0 (inputs).
+from contracts import c06 as _c06
+from gm2v.values import deep_copy as _deep_copy, Mat as _Mat, Cx as _Cx
+import z3 as _z3
+
+ALLOWED_PHYSICAL = {'MVG', 'MVP', 'MVZ', 'MVWm', 'MFd', 'MFs', 'MFb', 'MFu', 'MFc', 'MFt', 'MFve', 'MFvm', 'MFvt', 'MFe', 'MFm', 'MFtau', 'MAh'}
+
+def _fresh_like(v, name):
+    if isinstance(v, _Mat):
+        def el(i, j):
+            if v.cplx:
+                return _Cx(_z3.Real('%s_%d%d_re' % (name, i, j)), _z3.Real('%s_%d%d_im' % (name, i, j)))
+            return _z3.Real('%s_%d%d' % (name, i, j))
+        return _Mat(v.r, v.c, [[el(i, j) for j in range(v.c)] for i in range(v.r)], v.kind, v.cplx)
+    if isinstance(v, _Cx):
+        return _Cx(_z3.Real(name + '_re'), _z3.Real(name + '_im'))
+    return _z3.Real(name)
+
+def stale_pole_copy(m):
+    """the same state, except that every SUSY pole-mass/mixing copy in `physical' holds an arbitrary other value"""
+    f = _deep_copy(m)
+    ph = f.f['physical']
+    for k in list(ph.f.keys()):
+        if k not in ALLOWED_PHYSICAL:
+            ph.f[k] = _fresh_like(ph.f[k], 'stale_' + k)
+    return f
+
+NONINTERF = [('src/MSSMNoFV/gm2_1loop.cpp', n) for n in ('amu1LChi0', 'amu1LChipm', 'calculate_amu_1loop', 'amu1Lapprox', 'tan_beta_cor')] + \
+            [('src/MSSMNoFV/gm2_2loop.cpp', n) for n in ('amu2LFSfapprox', 'amu2LChipmPhotonic', 'amu2LChi0Photonic', 'amu2LaSferm', 'amu2LaCha', 'calculate_amu_2loop')]
+# (calculate_uncertainty_amu_2loop = 2.3e-10 + 0.3 (|amu2LaSferm| + |amu2LaCha|) is covered through its two callees above)
+
+NI_REPLAY = r'''
+#include "gm2calc/MSSMNoFV_onshell.hpp"
+#include "gm2calc/gm2_error.hpp"
+#include <cstdio>
+#include <cmath>
+namespace gm2calc { double @FN@(const MSSMNoFV_onshell&); }
+int main() {
+   int bad = 0;
+   for (int k = 0; k < 6; k++) {
+      gm2calc::MSSMNoFV_onshell m;
+      const Eigen::Matrix<double,3,3> one = Eigen::Matrix<double,3,3>::Identity();
+      m.set_alpha_MZ(0.0077552); m.set_alpha_thompson(0.00729735); m.set_g3(std::sqrt(4 * 3.141592653589793 * 0.1184));
+      m.get_physical().MFt = 173.34; m.get_physical().MFb = 4.18; m.get_physical().MFm = 0.1056583715; m.get_physical().MFtau = 1.777;
+      m.get_physical().MVWm = 80.385; m.get_physical().MVZ = 91.1876;
+      m.set_TB(5 + 9 * k); m.set_Ae(1, 1, 100 * k); m.set_Mu(350 + 60 * k); m.set_MassB(150 + 35 * k); m.set_MassWB(300 - 20 * k); m.set_MassG(1000 + 100 * k);
+      m.set_mq2(sqr(500. + 90 * k) * one); m.set_ml2(sqr(400. + 70 * k) * one); m.set_md2(sqr(520. + 40 * k) * one); m.set_mu2(sqr(480. + 110 * k) * one); m.set_me2(sqr(450. + 30 * k) * one);
+      m.set_Au(2, 2, 300 * k); m.set_Ad(2, 2, -200 * k); m.set_Ae(2, 2, 150 * k); m.set_MA0(1500 - 100 * k); m.set_scale(454.7);
+      try { m.calculate_masses(); } catch (const gm2calc::Error&) { continue; }
+      const double a = gm2calc::@FN@(m);
+      auto& p = m.get_physical();
+      const double s = 1.7;
+      p.MSveL *= s; p.MSvmL *= s; p.MSvtL *= s; p.MSd *= s; p.MSu *= s; p.MSe *= s; p.MSm *= s; p.MStau *= s; p.MSs *= s; p.MSc *= s; p.MSb *= s; p.MSt *= s;
+      p.Mhh *= s; p.MHpm *= s; p.MChi *= s; p.MCha *= s; p.MGlu *= s;
+      p.ZM = p.ZM.transpose().eval(); p.ZN = p.ZN.transpose().eval(); p.UM = p.UM.transpose().eval(); p.UP = p.UP.transpose().eval(); p.ZTau = p.ZTau.transpose().eval();
+      p.ZT = p.ZT.transpose().eval(); p.ZB = p.ZB.transpose().eval();
+      const double b = gm2calc::@FN@(m);
+      if (!(std::fabs(a - b) <= 1e-12 * std::fmax(std::fabs(a), std::fabs(b)))) {
+         std::printf("DIFF point k=%d (tan beta %d, Mu %d, M1 %d, M2 %d): @FN@ = %.17g, after overwriting only the SUSY pole-mass copies in physical: %.17g\n", k, 5 + 9 * k, 350 + 60 * k, 150 + 35 * k, 300 - 20 * k, a, b);
+         bad++;
+      }
+   }
+   if (!bad) std::printf("SAME on all points\n");
+   return bad ? 1 : 0;
+}
+'''
+
+def _sqr_prelude():
+    return 'template <class T> static T sqr(T x) { return x * x; }\n'
+
+def ni_replay(fn):
+    def rep(model, wd):
+        from gm2v import native
+        import subprocess
+        exe = native.build_against_library(wd, _sqr_prelude() + NI_REPLAY.replace('@FN@', fn))
+        r = subprocess.run([exe], capture_output=True, text=True, timeout=300)
+        return r.returncode == 1 and 'DIFF' in r.stdout, r.stdout.strip()[-1200:]
+    return rep
+
+def make_noninterf(file, fn):
+    @obligation('C07.current_spectrum_only.%s' % fn, fns=[(file, fn)], replay=ni_replay(fn))
+    def ob(ctx):
+        """reads frame: f(state) == f(state with arbitrary other values in the SUSY pole-mass copies of `physical') on all pairs of paths: the result is a
+        function of the current parameters and spectrum (so a rescaled and re-evaluated object scales like a fresh one)"""
+        nargs = 1
+        _c06.compare(ctx, file, fn, transform=stale_pole_copy)
+    return ob
+
+for _f in NONINTERF:
+    make_noninterf(*_f)
